@@ -24,6 +24,9 @@
 (* ==, C05_MemoImpl with KeyMode "pyeq") predict exactly the recorded      *)
 (* result (pred).  For optimizer traces (rec.opt present) the A-layer      *)
 (* prediction of C05_Optimizer is attached the same way.                   *)
+(* Round 2: results may be foreign objects ("obj": equality protocol + the *)
+(* wrapped tuple) and numpy arrays ("arr": dtype, shape, items) - both are *)
+(* compared structurally here, never through their own ==.                 *)
 (***************************************************************************)
 EXTENDS C05_Optimizer, C05_MemoSM, Json, IOUtils
 VARIABLES tid, l, verdict, fdrift
@@ -37,6 +40,9 @@ Res(rec, j) ==
     CASE j.rk = "tree" -> [rk |-> "tree", e |-> Tree(rec, j.i)]
       [] j.rk = "set"  -> [rk |-> "set", s |-> { Tree(rec, j.s[q]) : q \in 1..Len(j.s) }]
       [] j.rk = "val"  -> [rk |-> "tree", e |-> K(j.v)]       \* a number is the tree Const
+      \* a foreign result object: its equality protocol and the tuple it wraps (read off
+      \* its attribute, the object's own == / != are never consulted by the driver)
+      [] j.rk = "obj"  -> [rk |-> "obj", eq |-> j.eq, e |-> Tree(rec, j.i)]
       [] OTHER -> j
 
 FullEv(rec, ev) ==
@@ -47,7 +53,11 @@ FullEv(rec, ev) ==
                          F |-> { KeyEv(rec, ev.F[q]) : q \in 1..Len(ev.F) }]
 
 IsTop(ev) == ev.ev \in {"R", "W"}
-Unjudgeable(ev) == IsTop(ev) /\ (ev.r.rk = "unser" \/ ev.f.rk = "unser")
+\* a result that could not be serialised cannot be compared - unless exactly one side
+\* raised: an exception where the other returned a value is a difference whatever the value
+Unjudgeable(ev) == /\ IsTop(ev)
+                   /\ (ev.r.rk = "unser" \/ ev.f.rk = "unser")
+                   /\ ~(ev.r.rk = "err" \/ ev.f.rk = "err")
 
 \* the clause a recorded event contradicts in the model state reached so far
 Clause(ms, raw, ev) ==
@@ -62,7 +72,7 @@ FreshAgrees(rec, ev) ==
     LET mk == rec.mk  e == ev.k.e  a == ev.k.a IN
     IF ev.f.rk = "err" THEN TRUE
     ELSE IF mk.m = "eval" THEN
-        (ev.f.rk # "tree" \/ ev.f.e.t # "Const"
+        (mk.env > 2 \/ ev.f.rk # "tree" \/ ev.f.e.t # "Const"
          \/ JudgeVal(Eval(e, Envs[mk.env]), ev.f.e.v, e, Envs[mk.env]) \in {"OK", "SKIP"})
     ELSE IF mk.m \notin ModelledNames THEN TRUE
     ELSE IF ev.ev = "W" THEN ev.F = TouchedKeys(mk, e, a)
